@@ -35,8 +35,8 @@ MANIFEST_ENTRY = {
         "here it is compared to the millisecond end to end. Trusted: Lean kernel, harness, driver, mp4walk, mp4synth, shims."),
     "technique": "Lean 4 proof (case analysis, induction over the timeline loop and over the box list) + model/implementation correspondence",
 }
-PROP_FILES = ["DashLive/Props/C06.lean", "DashLive/Props/GenTie.lean", "DashLive/Props/GenTieTimeline.lean", "DashLive/Props/GenTieLiveIndex.lean"]
-LEAN_TARGETS = ["DashLive.Props.C06", "DashLive.Props.GenTie", "DashLive.Props.GenTieTimeline", "DashLive.Props.GenTieLiveIndex"]
+PROP_FILES = ["DashLive/Props/C06.lean", "DashLive/Props/GenTie.lean", "DashLive/Props/GenTieTimeline.lean", "DashLive/Props/GenTieLiveIndex.lean", "DashLive/Props/Generated.lean"]
+LEAN_TARGETS = ["DashLive.Props.C06", "DashLive.Props.GenTie", "DashLive.Props.GenTieTimeline", "DashLive.Props.GenTieLiveIndex", "DashLive.Props.Generated"]
 
 
 def _gen_arith():
